@@ -94,61 +94,146 @@ def write_replay(prop, tag, payload):
     return path
 
 
-def decide(prop, tier, seed, quiet=False):
+CLASS_OF = {"SingleMemoryStorageSchedule": "SingleMemory", "SingleDiskStorageSchedule": "SingleDisk",
+            "NoneCheckpointSchedule": "NoneSchedule", "MultistageCheckpointSchedule": "Multistage",
+            "MixedCheckpointSchedule": "Mixed", "TwoLevelCheckpointSchedule": "TwoLevel",
+            "RevolveCheckpointSchedule": "Revolve", "HRevolve": "HRevolve", "DiskRevolve": "DiskRevolve",
+            "PeriodicDiskRevolve": "PeriodicDiskRevolve", "n_advance": "Multistage"}
+
+
+def load_ledger():
+    p = os.path.join(VERIF, "ledger.json")
+    if not os.path.exists(p):
+        return {}
+    with open(p) as f:
+        return json.load(f).get("obligations", {})
+
+
+def native_replay(job):
+    """Replay a solver counterexample on the real function (rtc/replay_fn.py, /venv/bin/python)."""
+    if not job:
+        return None
+    env = dict(os.environ)
+    env["PYTHONPATH"] = REPO + os.pathsep + VERIF
+    try:
+        p = subprocess.run([VENV_PY, "-m", "rtc.replay_fn"], input=json.dumps(job), cwd=VERIF, env=env,
+                           capture_output=True, text=True, timeout=60)
+        if p.returncode != 0:
+            return {"ran": False, "outcome": "replay crashed: " + p.stderr[-300:], "confirmed": False}
+        return json.loads(p.stdout)
+    except Exception as exc:
+        return {"ran": False, "outcome": "replay error %r" % (exc,), "confirmed": False}
+
+
+def class_of_function(fn):
+    for k, v in CLASS_OF.items():
+        if k in fn:
+            return v
+    return None
+
+
+def decide(prop, tier, seed, quiet=False, vc=None):
     t0 = time.time()
     entry = load_manifest_entry(prop)
     level = (entry or {}).get("level_claimed", {}).get("category", "other")
-    vc = run_vc(prop, tier, seed)
+    if vc is None:
+        vc = run_vc(prop, tier, seed)
     rtc = run_rtc(prop, tier, seed)
     known = load_known()
+    ledger = load_ledger()
     lines = []
     exit_code = 0
     nviol = 0
     known_reported = []
 
+    def worse(code):
+        nonlocal exit_code
+        if exit_code == 3:
+            return
+        if code == 3 or code > exit_code or (code == 1 and exit_code == 2):
+            exit_code = code if not (exit_code == 1 and code == 2) else exit_code
+
     # ---- engine health
     if vc.get("engine_error"):
         lines.append("CHECKER-BROKEN: %s" % vc["engine_error"])
-        exit_code = 3
+        worse(3)
     if rtc.get("error"):
         lines.append("CHECKER-BROKEN: %s" % rtc["error"])
-        exit_code = 3
+        worse(3)
 
     obls = vc.get("obligations", [])
     n_obl = len(obls)
     discharged = [o for o in obls if o["status"] == "discharged"]
     failed = [o for o in obls if o["status"] == "failed"]
-    undecided = [o for o in obls if o["status"] in ("unknown", "anchor_error", "timeout")]
+    unknown = [o for o in obls if o["status"] in ("unknown", "timeout")]
+    anchor = [o for o in obls if o["status"] == "anchor_error"]
     vacuous = [o for o in obls if o["status"] == "vacuous"]
+    # an obligation the ledger records as discharged on the reference tree and that the
+    # solvers can no longer discharge has *regressed*: reported as a violation (with the
+    # solver's reason), never silently as "undecided"
+    regressed = [o for o in unknown if ledger.get(o["name"], {}).get("status") == "discharged"]
+    undecided = [o for o in unknown if o not in regressed] + anchor
     if vacuous:
         lines.append("CHECKER-BROKEN: vacuous obligations: %s" % [o["name"] for o in vacuous][:5])
-        exit_code = 3
-    if n_obl == 0 and (entry or {}).get("_expects_vc", True) and not vc.get("no_vc_expected"):
-        lines.append("CHECKER-BROKEN: zero obligations generated for %s" % prop)
-        exit_code = 3
+        worse(3)
+    dead = [k for k in vc.get("covers", {}).get("unreachable", [])
+            if ("#yield" in k or "#return" in k or k.endswith("#end") or "back_edge" in k)
+            and "lemma" not in k]
+    if dead and not failed and not regressed:
+        lines.append("CHECKER-BROKEN: sites proved unreachable although every obligation is discharged "
+                     "(vacuous contracts?): %s" % dead[:5])
+        worse(3)
+    expected = ledger_count(ledger, prop)
+    if n_obl == 0 and expected > 0:
+        lines.append("CHECKER-BROKEN: zero obligations generated for %s (ledger expects %d)" % (prop, expected))
+        worse(3)
 
     # ---- VC failures: named obligation, counterexample replayed on the real code
-    for o in failed:
-        k = known_match(known, prop, o["name"], o.get("class"), None)
+    rtc_by_class = {}
+    for v in rtc.get("violations", []):
+        cls = v["spec"][0] if v.get("spec") else None
+        rtc_by_class.setdefault(cls, []).append(v)
+    seen_names = set()
+    for o in failed + regressed:
+        if o["name"] in seen_names:
+            continue
+        seen_names.add(o["name"])
+        cls = class_of_function(o.get("function") or "")
+        k = known_match(known, prop, o["name"], cls, None)
         if k:
-            known_reported.append(k)
-            lines.append("KNOWN-FINDING: property=%s %s" % (prop, k["what"]))
+            if k not in known_reported:
+                known_reported.append(k)
+                lines.append("KNOWN-FINDING: property=%s %s" % (prop, k["what"]))
             continue
         nviol += 1
+        nat = native_replay(o.get("replay_job"))
+        confirmed = bool(nat and nat.get("confirmed"))
+        concrete = None
+        if not confirmed and cls in rtc_by_class:
+            concrete = rtc_by_class[cls][0]
+            confirmed = True
         payload = {"property": prop, "kind": "vc", "obligation": o["name"], "clause": o.get("clause"),
-                   "location": o.get("loc"), "model": o.get("model"),
-                   "native_replay": o.get("native_replay"),
-                   "solver_output": o.get("solver_output"), "function": o.get("function")}
+                   "location": o.get("loc"), "function": o.get("function"),
+                   "solver_status": o["status"] + (" (discharged on the reference tree, see ledger.json)"
+                                                   if o in regressed else ""),
+                   "model": o.get("model"), "solver_output": o.get("solver_output"),
+                   "native_replay": nat, "replay_job": o.get("replay_job"),
+                   "concrete_failing_input": concrete, "spec": (concrete or {}).get("spec"),
+                   "detail": (concrete or {}).get("detail")}
         path = write_replay(prop, o["name"], payload)
-        confirmed = (o.get("native_replay") or {}).get("confirmed")
         suffix = "" if confirmed else " no-failing-input-found"
-        lines.append("FAILED-OBLIGATION %s at %s" % (o["name"], o.get("loc")))
+        lines.append("FAILED-OBLIGATION %s at %s [%s]%s" % (
+            o["name"], o.get("loc"), o.get("clause"),
+            "" if o not in regressed else " (no longer provable; was discharged on the reference tree)"))
+        if nat and nat.get("ran"):
+            lines.append("  native replay: %s -> %s" % (nat.get("outcome"), nat.get("violated") or "contract holds on this input"))
+        if concrete:
+            lines.append("  concrete failing input from the bounded layer: %s: %s" % (concrete.get("spec"), concrete.get("detail")))
         lines.append("VIOLATION property=%s replay=%s%s" % (prop, path, suffix))
-        exit_code = max(exit_code, 1) if exit_code != 3 else 3
+        worse(1)
     for o in undecided:
         lines.append("UNDECIDED %s (%s) %s" % (o["name"], o["status"], o.get("note", "")))
-        if exit_code == 0:
-            exit_code = 2
+        worse(2)
 
     # ---- bounded violations, grouped by clause and class
     groups = {}
@@ -176,36 +261,38 @@ def decide(prop, tier, seed, quiet=False):
         lines.append("BOUNDED-CLAUSE-FAILED %s on %s (%d inputs), e.g. %s: %s" % (
             clause, cls, len(unknown_vs), unknown_vs[0].get("spec"), unknown_vs[0].get("detail")))
         lines.append("VIOLATION property=%s replay=%s" % (prop, path))
-        if exit_code != 3:
-            exit_code = 1
+        worse(1)
 
     # ---- evidence
     wall = time.time() - t0
     solver_times = [o.get("time_s", 0.0) for o in obls]
     samples = []
-    for o in discharged[:3]:
+    for o in [x for x in discharged if x.get("backend") != "z3-simplify"][:3]:
         samples.append({"obligation": o["name"], "clause": o.get("clause"), "loc": o.get("loc"),
-                        "backend": o.get("backend")})
+                        "backend": o.get("backend"), "time_s": o.get("time_s")})
     samples += rtc.get("samples", [])[:3]
     if not samples:
         samples = [{"note": "no sample available"}]
     backend_count = {}
     for o in discharged:
         backend_count[o.get("backend", "z3")] = backend_count.get(o.get("backend", "z3"), 0) + 1
+    distinct_names = sorted(set(o["name"] for o in obls))
     cov = {
         "obligations": n_obl,
         "discharged": len(discharged),
-        "failed": len(failed),
+        "failed": len(failed) + len(regressed),
         "undecided": [o["name"] for o in undecided],
+        "distinct_obligation_names": len(distinct_names),
         "checker_cmd": "%s/check %s --tier %s" % (VERIF, prop, tier),
-        "trusted_base": ["pyvc VC generator (/verif/pyvc)", "sidecar contracts (/verif/contracts)",
+        "trusted_base": ["pyvc VC generator (/verif/pyvc)", "sidecar contracts + ghost executor (/verif/contracts)",
                          "z3 5.1.0 (python3-vt)", "cvc5 1.0.3 CLI (second opinion on z3 unknowns)",
-                         "CPython ast module", "reference executor /verif/rtc/executor.py (bounded layer)"],
+                         "CPython ast module", "induction principle over the naturals (spec-function lemmas)",
+                         "reference executor /verif/rtc/executor.py (bounded layer only)"],
         "functions_under_contract": vc.get("functions", []),
         "vc_by_backend": backend_count,
         "solver_time_s": {"sum": round(sum(solver_times), 3),
                           "max": round(max(solver_times), 3) if solver_times else 0.0},
-        "obligation_names": [o["name"] for o in obls][:400],
+        "obligation_names": distinct_names[:300],
         "bounded_clauses": [{"clause": c, "box": rtc.get("box"), "exhaustive_in_box": rtc.get("exhaustive")}
                             for c in rtc.get("clauses", [])],
         "delegated_to_bounded": vc.get("delegated_to_bounded", []),
@@ -218,19 +305,18 @@ def decide(prop, tier, seed, quiet=False):
         "samples": samples,
         "known_findings_reported": [k["what"] for k in known_reported],
         "explanation": (
-            "%d verification conditions generated from the current /repo source by pyvc, %d "
-            "discharged (unsat) by SMT with no bound on n/units/period/iterations, %d failed, %d "
-            "undecided. Bounded stand-in (never counted as proved): %d evaluations of the same "
-            "contracts on the real classes in %s." % (
-                n_obl, len(discharged), len(failed), len(undecided), rtc.get("evaluations", 0),
-                rtc.get("box", "-"))),
+            "%d verification conditions (%d distinct obligation names) generated from the current /repo "
+            "source by pyvc for this property, %d discharged (unsat) with no bound on n/units/period/"
+            "iterations, %d failed, %d undecided. Bounded stand-in (never counted as proved): %d "
+            "evaluations of the contracts on the real classes in %s." % (
+                n_obl, len(distinct_names), len(discharged), len(failed) + len(regressed), len(undecided),
+                rtc.get("evaluations", 0), rtc.get("box", "-"))),
     }
     ev = {"property_id": prop, "tier": tier, "seed": seed, "level": level, "coverage": cov,
           "assumptions": ASSUMPTIONS_COMMON + vc.get("assumptions", []),
           "wall_s": round(wall, 2), "violations": nviol}
     if level == "proof" and (len(discharged) != n_obl or n_obl == 0):
-        # never report a proof level that this run did not earn
-        ev["level"] = "other"
+        ev["level"] = "other"      # never report a proof level that this run did not earn
     os.makedirs(os.path.join(VERIF, "evidence"), exist_ok=True)
     with open(os.path.join(VERIF, "evidence", prop + ".json"), "w") as f:
         json.dump(ev, f, indent=1, default=str)
@@ -240,6 +326,10 @@ def decide(prop, tier, seed, quiet=False):
         print("%s tier=%s vc=%d/%d discharged, bounded evaluations=%d, violations=%d, wall=%.1fs, exit=%d" % (
             prop, tier, len(discharged), n_obl, rtc.get("evaluations", 0), nviol, wall, exit_code))
     return exit_code
+
+
+def ledger_count(ledger, prop):
+    return sum(1 for v in ledger.values() if prop in v.get("props", []))
 
 
 def replay(path):
@@ -310,11 +400,31 @@ def main(argv):
         from pyvc import selftest
         return selftest.main(args[1:])
     if cmd == "all":
+        from pyvc import api
+        full = api.run_all(tier=tier, seed=seed, repo=REPO)
         worst = 0
         for p in ALL:
-            rc = decide(p, tier, seed)
+            rc = decide(p, tier, seed, vc=api.split_by_property(full, p))
             worst = max(worst, rc)
         return worst
+    if cmd == "ledger":
+        from pyvc import api
+        full = api.run_all(tier="thorough", seed=seed, repo=REPO)
+        led = {}
+        for o in full["obligations"]:
+            e = led.setdefault(o["name"], {"status": "discharged", "props": o["props"], "count": 0,
+                                           "max_time_s": 0.0})
+            e["count"] += 1
+            e["max_time_s"] = max(e["max_time_s"], o.get("time_s", 0.0))
+            if o["status"] != "discharged":
+                e["status"] = o["status"]
+        bad = {k: v for k, v in led.items() if v["status"] != "discharged"}
+        with open(os.path.join(VERIF, "ledger.json"), "w") as f:
+            json.dump({"_comment": "committed; generated by `./check ledger` on the reference tree; "
+                                   "never written by a check", "obligations": led}, f, indent=0, sort_keys=True)
+        print("ledger: %d obligation names, %d VCs, not discharged: %s" % (
+            len(led), sum(v["count"] for v in led.values()), list(bad)[:10]))
+        return 0 if not bad else 2
     if cmd in ALL:
         return decide(cmd, tier, seed)
     print("unknown command", cmd)
